@@ -18,7 +18,7 @@ import (
 )
 
 func init() {
-	register(&Family{Name: "CABI", Gen: genCABI, Exec: execCABI, Oracle: oracleCABI, InProc: true})
+	register(&Family{Name: "CABI", Gen: genCABI, Exec: execCABI, Oracle: oracleCABI})
 }
 
 type cabiProc struct {
